@@ -51,6 +51,12 @@ func arbitraryFor(class string, orig []byte, rng *rand.Rand) []byte {
 			[]byte("commit 100\x00tree " + strings.Repeat("a", 40) + "\nauthor A <a@b.cd> 1 +\ncommitter A <a@b.cd> 1 +0000\n\nm\n"),
 			[]byte("commit 100\x00tree " + strings.Repeat("a", 40) + "\nparent zz\nauthor A <a@b.cd> 1 +0000\n"),
 		}
+		// well-formed commits with unusual but legal sign lines (the decoder must take them or refuse them, not crash)
+		for _, sign := range []string{"dev> ops <t@example.com> 1700000000 +0000", "a <b> c <t@example.com> 1 +0000", " <t@example.com> 1700000000 -0030",
+			"N <t@example.com> 99999999999999999999 +0000", "N <t@example.com> 1700000000 +9999", "N <t@example.com> 1700000000 +00", "N <> 1700000000 +0000", "N <t@example.com>  1700000000 +0000"} {
+			body := "tree " + strings.Repeat("a", 40) + "\nauthor " + sign + "\ncommitter " + sign + "\n\nm\n"
+			payloads = append(payloads, []byte(fmt.Sprintf("commit %d\x00%s", len(body), body)))
+		}
 		arbSeq := int(atomic.AddInt64(&arbSeqCtr, 1))
 		switch arbSeq % 4 {
 		case 0:
@@ -110,7 +116,7 @@ func arbitraryFor(class string, orig []byte, rng *rand.Rand) []byte {
 func mutationsFor(rel, class string, orig []byte, rng *rand.Rand, thorough bool) []mutation {
 	var out []mutation
 	n := len(orig)
-	budget := 40
+	budget := 24
 	if thorough {
 		budget = 4096
 	}
@@ -179,7 +185,7 @@ func mutationsFor(rel, class string, orig []byte, rng *rand.Rand, thorough bool)
 		na = 60
 	}
 	if class == "object" {
-		na = 28 // the grammar-made payloads are few: try (nearly) all of them on every object
+		na = 40 // grammar-made and random payloads under the name of an existing object (crafted objects under their own ids come separately)
 	}
 	for i := 0; i < na; i++ {
 		out = append(out, mutation{rel: rel, kind: "arbitrary", off: i, data: arbitraryFor(class, orig, rng)})
@@ -272,11 +278,22 @@ func damageEnumerate(goit string, c *Chunk, evs []M, contents map[string][]byte,
 	for i := 0; i+1 < len(objTargets) && i < 8; i++ {
 		muts = append(muts, mutation{rel: objTargets[i].rel, kind: "swap", rel2: objTargets[i+1].rel})
 	}
+	// crafted objects: well-formed object files stored under their correct ids with unusual content, made reachable
+	// from the current branch, so that the tree / commit / sign decoders behind GetObject see them
+	if h := headId(good); h != "" {
+		if o := objOf(c.T, good, h); o != nil && o["k"] == "commit" {
+			for _, cm := range craftedObjects(o["tree"].(string), h, thorough) {
+				muts = append(muts, cm)
+			}
+		}
+	}
 	snap := readTreeFiles(base)
 	ref.Snapshot = snap
 	for mi, m := range muts {
-		m.class = classOf[m.rel]
-		m.class2 = classOf[m.rel2]
+		if m.kind != "craft" {
+			m.class = classOf[m.rel]
+			m.class2 = classOf[m.rel2]
+		}
 		m.mi = mi
 		sl, results := damageCase(goit, c, snap, tz, good, goodLine, m, label, stats)
 		ref.Events = append(ref.Events, M{"ev": "damage", "rel": m.rel, "kind": m.kind, "off": m.off, "val": m.val, "rel2": m.rel2, "hex": fmt.Sprintf("%x", m.data), "class": m.class, "class2": m.class2, "mi": mi})
@@ -343,7 +360,25 @@ func damageCase(goit string, c *Chunk, snap map[string][]byte, tz int, good M, g
 	defer os.RemoveAll(d)
 	materializeFiles(snap, d)
 	classOf := map[string]string{m.rel: m.class, m.rel2: m.class2}
-	if m.kind == "swap" {
+	var craftedIds []string
+	if m.kind == "craft" {
+		put := func(kind string, body []byte) string {
+			id := gitId(kind, body)
+			p := filepath.Join(d, "root", ".goit", "objects", id[:2], id[2:])
+			os.MkdirAll(filepath.Dir(p), 0o777)
+			os.WriteFile(p, zlibOf(append([]byte(fmt.Sprintf("%s %d\x00", kind, len(body))), body...)), 0o666)
+			return id
+		}
+		id := put(m.class2, m.data)
+		craftedIds = append(craftedIds, id)
+		if m.class2 == "tree" {
+			body := fmt.Sprintf("tree %s\nauthor T <t@example.com> 1700000000 +0000\ncommitter T <t@example.com> 1700000000 +0000\n\ncrafted\n", id)
+			id = put("commit", []byte(body))
+			craftedIds = append(craftedIds, id)
+		}
+		hb := string(Unesc(good["head"].(M)["branch"].(string)))
+		os.WriteFile(filepath.Join(d, "root", ".goit", "refs", "heads", hb), []byte(id), 0o666)
+	} else if m.kind == "swap" {
 		a, _ := os.ReadFile(filepath.Join(d, m.rel))
 		b, _ := os.ReadFile(filepath.Join(d, m.rel2))
 		os.WriteFile(filepath.Join(d, m.rel), b, 0o666)
@@ -391,6 +426,7 @@ func damageCase(goit string, c *Chunk, snap map[string][]byte, tz int, good M, g
 			ids = append(ids, o["tree"].(string))
 		}
 	}
+	ids = append(ids, craftedIds...)
 	for _, id := range ids {
 		run("cat-t:"+id[:7], "cat-file", "-t", id)
 		x := run("cat-p:"+id[:7], "cat-file", "-p", id)
@@ -451,3 +487,51 @@ func damageCase(goit string, c *Chunk, snap map[string][]byte, tz int, good M, g
 }
 
 var _ = syscall.Getpid
+
+// craftedObjects returns mutations of kind "craft": data is the body of an object of kind class2 that is written under
+// its correct id; a crafted commit becomes the tip of the current branch, a crafted tree gets a commit on top of it.
+func craftedObjects(tree, parent string, thorough bool) []mutation {
+	var out []mutation
+	add := func(kind, body string) {
+		out = append(out, mutation{rel: "crafted-" + kind, kind: "craft", off: len(out), data: []byte(body), class: "crafted", class2: kind})
+	}
+	ok := "T <t@example.com> 1700000000 +0000"
+	signs := []string{"dev> ops <t@example.com> 1700000000 +0000", "a <b> c <t@example.com> 1 +0000", " <t@example.com> 1700000000 -0030",
+		"N <t@example.com> 99999999999999999999 +0000", "N <t@example.com> 1700000000 +9999", "N <t@example.com> 1700000000 +00", "N <> 1700000000 +0000",
+		"N <t@example.com>  1700000000 +0000", "N t@example.com 1700000000 +0000", "<t@example.com> 1700000000 +0000", "N <t@example.com> 1700000000", "N <t@example.com> -5 +0000",
+		"N <t@example.com> 1700000000 +0000 ", "N <t@ex ample.com> 1700000000 +0000", "Zo\xc3\xab <t@example.com> 1700000000 -1200"}
+	for _, s := range signs {
+		add("commit", "tree "+tree+"\nparent "+parent+"\nauthor "+s+"\ncommitter "+s+"\n\nm\n")
+	}
+	add("commit", "tree "+tree+"\nparent "+parent+"\nauthor "+ok+"\n\nno committer\n")
+	add("commit", "tree "+tree+"\nauthor "+ok+"\ncommitter "+ok+"\nencoding latin1\n\nextra header\n")
+	add("commit", "tree "+tree+"\ntree "+tree+"\nauthor "+ok+"\ncommitter "+ok+"\n\ntwo trees\n")
+	add("commit", "tree "+tree+"\nparent "+strings.Repeat("e", 40)+"\nauthor "+ok+"\ncommitter "+ok+"\n\nmissing parent\n")
+	add("commit", "tree "+tree+"\nparent "+parent[:39]+"\nauthor "+ok+"\ncommitter "+ok+"\n\nshort parent\n")
+	add("commit", "tree "+tree+"\nparent "+parent+"\nauthor "+ok+"\ncommitter "+ok+"\n\nno trailing newline")
+	add("commit", "tree "+tree+"\nparent "+parent+"\nauthor "+ok+"\ncommitter "+ok)
+	add("commit", "tree "+tree+"\nparent "+parent+"\nauthor "+ok+"\ncommitter "+ok+"\n\n")
+	add("commit", "tree "+strings.Repeat("e", 40)+"\nauthor "+ok+"\ncommitter "+ok+"\n\nmissing tree\n")
+	add("commit", "tree "+parent+"\nauthor "+ok+"\ncommitter "+ok+"\n\ntree line names a commit\n")
+	add("commit", "parent "+parent+"\nauthor "+ok+"\ncommitter "+ok+"\n\nno tree line\n")
+	add("commit", "")
+	add("commit", "tree "+tree+"\nparent "+parent+"\nauthor "+ok+"\ncommitter "+ok+"\n\n"+strings.Repeat("long line ", 20000)+"\n")
+	id20 := strings.Repeat("\x11", 20)
+	add("tree", "")
+	add("tree", "100644 a\x00"+id20)
+	add("tree", "100644 with space\x00"+id20)
+	add("tree", "040000 d\x00"+id20)
+	add("tree", "100644 \x00"+id20)
+	add("tree", "100644\x00"+id20)
+	add("tree", "100644 a\x00"+id20[:19])
+	add("tree", "100644 a\x00"+id20+"100644 a\x00"+id20)
+	add("tree", "100644 b\x00"+id20+"100644 a\x00"+id20)
+	add("tree", "100644 a/b\x00"+id20)
+	add("tree", "100755 x\x00"+id20)
+	add("tree", "120000 l\x00"+id20)
+	add("tree", "160000 sub\x00"+id20)
+	add("tree", "100644 a\x00"+id20+"garbage")
+	add("tree", "1 a\x00"+id20)
+	add("tree", " a\x00"+id20)
+	return out
+}
